@@ -73,71 +73,85 @@ def random_vec_bytes(rng, q, dim):
 
 # ---------------------------------------------------------------- operations
 
+MUT = (10, 11, 20, 21, 22, 30, 40, 41, 50)
+
+
+def op_toks(o):
+    c = o['op']
+    if c == 40:
+        return [40, o['dim'], o['q'], o['metric'], len(o['json'])] + list(o['json'])
+    if c == 41:
+        return [41]
+    if c == 10:
+        t = [10, len(o['rid'])] + list(o['rid']) + [len(o['streams'])]
+        for sid, p in o['streams']:
+            t += [sid] + p.toks()
+        return t + [o.get('exp', 0)]
+    if c in (11, 12):
+        return [c, len(o['rid'])] + list(o['rid'])
+    if c == 20:
+        return [20, o['id']] + o['vec'].toks() + o['meta'].toks() + [o.get('exp', 0)]
+    if c == 21:
+        return [21, o['id']] + o['meta'].toks() + [o.get('exp', 0)]
+    if c in (22, 23):
+        return [c, o['id']]
+    if c == 30:
+        return [30, o.get('mode', 1), o.get('dim', 0), o.get('q', 0), o.get('metric', 0)]
+    if c in (24, 25, 31, 32):
+        return [c]
+    if c == 26:
+        return [26, o['fk'], o['fa'], o['fb'], o['off'], o['lim']]
+    if c == 50:
+        return [50, o['j']] + op_toks(o['inner'])
+    raise ValueError(c)
+
+
 def render(ops, with_state=True):
     """ops -> token text. A STATE op (31) is inserted after every mutating op."""
     t = [1]
     for o in ops:
-        c = o['op']
-        if c == 40:
-            t += [40, o['dim'], o['q'], o['metric'], len(o['json'])] + list(o['json'])
-        elif c == 41:
-            t += [41]
-        elif c == 10:
-            t += [10, len(o['rid'])] + list(o['rid']) + [len(o['streams'])]
-            for sid, p in o['streams']:
-                t += [sid] + p.toks()
-            t += [o.get('exp', 0)]
-        elif c in (11, 12):
-            t += [c, len(o['rid'])] + list(o['rid'])
-        elif c == 20:
-            t += [20, o['id']] + o['vec'].toks() + o['meta'].toks() + [o.get('exp', 0)]
-        elif c == 21:
-            t += [21, o['id']] + o['meta'].toks() + [o.get('exp', 0)]
-        elif c in (22, 23):
-            t += [c, o['id']]
-        elif c == 30:
-            t += [30, o.get('mode', 1), o.get('dim', 0), o.get('q', 0), o.get('metric', 0)]
-        elif c in (24, 25, 31, 32):
-            t += [c]
-        elif c == 26:
-            t += [26, o['fk'], o['fa'], o['fb'], o['off'], o['lim']]
-        else:
-            raise ValueError(c)
-        if with_state and c in (10, 11, 20, 21, 22, 30, 40, 41):
+        t += op_toks(o)
+        if with_state and o['op'] in MUT:
             t += [31]
     return ' '.join(map(str, t)) + '\n'
 
 
+def op_to_js(o):
+    d = dict(o)
+    for k in ('vec', 'meta'):
+        if k in d:
+            d[k] = d[k].js()
+    if 'streams' in d:
+        d['streams'] = [[sid, p.js()] for sid, p in d['streams']]
+    for k in ('rid', 'json'):
+        if k in d:
+            d[k] = d[k].hex()
+    if 'inner' in d:
+        d['inner'] = op_to_js(d['inner'])
+    return d
+
+
+def op_from_js(d):
+    d = dict(d)
+    for k in ('vec', 'meta'):
+        if k in d:
+            d[k] = P.from_js(d[k])
+    if 'streams' in d:
+        d['streams'] = [(sid, P.from_js(p)) for sid, p in d['streams']]
+    for k in ('rid', 'json'):
+        if k in d:
+            d[k] = bytes.fromhex(d[k])
+    if 'inner' in d:
+        d['inner'] = op_from_js(d['inner'])
+    return d
+
+
 def ops_to_js(ops):
-    out = []
-    for o in ops:
-        d = dict(o)
-        for k in ('vec', 'meta'):
-            if k in d:
-                d[k] = d[k].js()
-        if 'streams' in d:
-            d['streams'] = [[sid, p.js()] for sid, p in d['streams']]
-        for k in ('rid', 'json'):
-            if k in d:
-                d[k] = d[k].hex()
-        out.append(d)
-    return out
+    return [op_to_js(o) for o in ops]
 
 
 def ops_from_js(js):
-    out = []
-    for d in js:
-        d = dict(d)
-        for k in ('vec', 'meta'):
-            if k in d:
-                d[k] = P.from_js(d[k])
-        if 'streams' in d:
-            d['streams'] = [(sid, P.from_js(p)) for sid, p in d['streams']]
-        for k in ('rid', 'json'):
-            if k in d:
-                d[k] = bytes.fromhex(d[k])
-        out.append(d)
-    return out
+    return [op_from_js(d) for d in js]
 
 
 def options_json(path, metric, dim, q):
@@ -300,7 +314,7 @@ def line_owner(ops):
     own = []
     for i, o in enumerate(ops):
         own.append(i)
-        if o['op'] in (10, 11, 20, 21, 22, 30, 40, 41):
+        if o['op'] in MUT:
             own.append(i)
     return own
 
@@ -309,6 +323,7 @@ def spec_check(ops, g):
     """independent oracle for C01/C16 on collection histories: a Python dict as the specification.
     returns None or a description of the first deviation."""
     spec = {}
+    ignore = set()
     own = line_owner(ops)
     k = 0
     for i, o in enumerate(ops):
@@ -316,11 +331,17 @@ def spec_check(ops, g):
             return {'op_index': i, 'kind': 'died', 'what': 'implementation produced no output for this operation (process died?)'}
         f = list(map(int, g[k].split()))
         c = o['op']
-        k += 2 if c in (10, 11, 20, 21, 22, 30, 40, 41) else 1
+        k += 2 if c in MUT else 1
         if f[0] != c:
             return {'op_index': i, 'kind': 'died', 'what': 'output desynchronised', 'line': g[k - 1]}
         if c not in (24, 25, 31, 32) and len(f) == 2 and f[1] == 2:
             return {'op_index': i, 'kind': 'panic', 'what': 'operation panicked', 'line': ' '.join(map(str, f))}
+        if c in (20, 21, 22, 23) and o['id'] in ignore:
+            continue
+        if c == 50 and o['inner'].get('id') in ignore:
+            continue
+        if c in (24, 25, 26) and ignore:
+            continue
         if c == 20:
             spec[o['id']] = (o['meta'].bytes(), o['vec'].bytes())
             if f[1] != 0:
@@ -376,6 +397,38 @@ def spec_check(ops, g):
         elif c == 30:
             if f[1] != 0:
                 return {'op_index': i, 'kind': 'reopen', 'what': 'reopen failed or options changed', 'got': f}
+        elif c == 50:
+            if f[1] != 0:
+                return {'op_index': i, 'kind': 'crash', 'what': 'reopening the crash image failed', 'got': f}
+            inner = o['inner']
+            if inner['op'] in (20, 21, 22):
+                id_ = inner['id']
+                pre = spec.get(id_)
+                if inner['op'] == 20:
+                    post = (inner['meta'].bytes(), inner['vec'].bytes())
+                elif inner['op'] == 21:
+                    post = (inner['meta'].bytes(), pre[1]) if pre else None
+                else:
+                    post = None
+                # the generator reads the affected id next: that read decides pre or post
+                nxt = ops[i + 1] if i + 1 < len(ops) else None
+                if nxt is not None and nxt['op'] == 23 and nxt['id'] == id_ and k < len(g):
+                    f2 = list(map(int, g[k].split()))
+
+                    def enc(v):
+                        return [23, 1] if v is None else [23, 0, len(v[0]), hash_bytes(v[0]), len(v[1]), hash_bytes(v[1])]
+                    if f2 == enc(post):
+                        if post is None:
+                            spec.pop(id_, None)
+                        else:
+                            spec[id_] = post
+                    elif f2 == enc(pre):
+                        pass
+                    else:
+                        return {'op_index': i, 'kind': 'crash', 'what': 'after the crash the affected document is neither entirely in its pre-operation nor in its post-operation state', 'got': f2, 'pre': enc(pre), 'post': enc(post)}
+                else:
+                    ignore.add(id_)     # outcome not observed: this id is no longer checked
+                    spec.pop(id_, None)
     return None
 
 
